@@ -122,7 +122,7 @@ func (p *Program) BuildSSA() {
 	p.allFns = ssautil.AllFunctions(prog)
 	p.fnByObj = map[*types.Func]*ssa.Function{}
 	for fn := range p.allFns {
-		if o, ok := fn.Object().(*types.Func); ok && o != nil {
+		if o, ok := fn.Object().(*types.Func); ok && o != nil && fn.Synthetic == "" {
 			if fn.Origin() == nil || fn.Origin() == fn {
 				p.fnByObj[o] = fn
 			}
